@@ -3,6 +3,7 @@
 Streams (model `Wpull.Filter` vs the real code in the wpull checkout):
   similar   wpull.url.schemes_similar                                   function level
   subdir    wpull.url.is_subdir (fnmatch result logged from the real call)
+  commalist AppArgumentParser.comma_list (the converter behind every LIST option) vs model commaList
   build     real AppArgumentParser -> real URLFiltersSetupTask._build_url_filters +
             real URLFiltersPostURLImportSetupTask  vs  model buildFilters
   test      real FetchRule.consult_filters / DemuxURLFilter.test_info on the REAL filter
@@ -49,11 +50,13 @@ RULE = ('test: command lines generated option by option (each scope option on/of
         'records with level / inline level / try count placed on the boundaries of the chosen limits (n-1, n, n+1, n+2, n+3), '
         'parent and root URLs on same / other hosts and schemes. non-trivial = at least one non-default scope option or a '
         'record beyond level 0; distinct by (argv, hostnames, url, record, is_redirect). '
+        'LIST option values are written as a user may write them (blank before/after a comma, empty entries, leading/trailing comma) and '
+        'the reference reads them from the raw command-line text, not from the parser under test. '
         'web/ftp: real processor sessions against scripted servers with redirects to other hosts and out-of-scope paths. '
         'ftpcrawl: one case = one FTP crawl from a command-line URL (16 start shapes incl. glob patterns matching files, directories or both) '
         'x {-r} x {-l 1,2,3,inf} x a few reject rules x glob on/off, up to 14 items each; non-trivial = at least 2 requests. '
         'crawl: one case = one end-to-end crawl (5 origins: start host, forbidden host, other port, https port, www.; '
-        'links, page requisites and 1-2 hop redirects across them; 1-3 workers; robots on in ~25%); non-trivial = at least 2 page requests.')
+        'links, page requisites, iframes (embedded HTML documents with plain links and further requisites) and 1-2 hop redirects across them; requests are judged under the record implied by the link kinds along the path; 1-3 workers; robots on in ~25%); non-trivial = at least 2 page requests.')
 TRUSTED = ['the `re` engine and `fnmatch` are oracles of the model: their results are logged from the real calls and handed to the model',
            'URL parsing (URLInfo.parse) is engine Url\'s business: filters receive the parsed fields',
            'harness/fakenet.py in-memory transports (web/ftp session streams)',
@@ -259,7 +262,38 @@ def parse_args(argv):
     from wpull.application.options import AppArgumentParser
     if _PARSER is None:
         _PARSER = AppArgumentParser()
-    return _PARSER.parse_args(list(argv))
+    args = _PARSER.parse_args(list(argv))
+    args._raw_lists = raw_lists(argv)
+    return args
+
+
+LIST_OPTIONS = {'-D': 'domains', '--domains': 'domains', '--exclude-domains': 'exclude_domains',
+                '--hostnames': 'hostnames', '--exclude-hostnames': 'exclude_hostnames',
+                '-I': 'include_directories', '--include-directories': 'include_directories',
+                '-X': 'exclude_directories', '--exclude-directories': 'exclude_directories',
+                '-A': 'accept', '--accept': 'accept', '-R': 'reject', '--reject': 'reject'}
+
+
+def raw_lists(argv):
+    """The LIST options as the user wrote them on the command line, read by their documented meaning
+    (comma separated; blanks around an entry and empty entries mean nothing) - NOT through the parser under test."""
+    out = {}
+    argv = list(argv)
+    for i, a in enumerate(argv):
+        name, eq, val = a.partition('=')
+        if a in LIST_OPTIONS and i + 1 < len(argv):
+            out[LIST_OPTIONS[a]] = argv[i + 1]
+        elif eq and name in LIST_OPTIONS:
+            out[LIST_OPTIONS[name]] = val
+    return {k: [x.strip() for x in v.split(',') if x.strip()] for k, v in out.items()}
+
+
+def ref_list(args, name):
+    raw = getattr(args, '_raw_lists', None)
+    if raw is not None:
+        return raw.get(name) or []
+    v = getattr(args, name)
+    return [] if v is None else ([x.strip() for x in v.split(',') if x.strip()] if isinstance(v, str) else list(v))
 
 
 class _Table:
@@ -364,13 +398,15 @@ def reference_scope(args, hostnames, url, rec):
             if not my_dir.startswith(top_dir):
                 broken.append('no-parent')
     # domain lists (hostname suffixes) and host lists (exact)
-    if args.domains and not (host and any(host.endswith(d) for d in args.domains)):
+    domains, xdomains = ref_list(args, 'domains'), ref_list(args, 'exclude_domains')
+    hosts_ok, xhosts = ref_list(args, 'hostnames'), ref_list(args, 'exclude_hostnames')
+    if domains and not (host and any(host.endswith(d) for d in domains)):
         broken.append('domains')
-    if args.exclude_domains and host and any(host.endswith(d) for d in args.exclude_domains):
+    if xdomains and host and any(host.endswith(d) for d in xdomains):
         broken.append('domains')
-    if args.hostnames and host not in args.hostnames:
+    if hosts_ok and host not in hosts_ok:
         broken.append('hostnames')
-    if args.exclude_hostnames and host in args.exclude_hostnames:
+    if xhosts and host in xhosts:
         broken.append('hostnames')
     # span hosts
     allow = args.span_hosts_allow or []
@@ -384,29 +420,26 @@ def reference_scope(args, hostnames, url, rec):
         broken.append('regex')
     if args.reject_regex and _re.search(args.reject_regex, ui.url):
         broken.append('regex')
-    # directory lists: the path, read as a directory, matches a listed directory pattern
+    # directory lists: the path lies in a listed directory (the directory itself or anything below it);
+    # a listed directory may contain wildcards: some leading directory part of the path matches it
     as_dir = path if path.endswith('/') else path + '/'
+    leading = [as_dir[:i + 1] for i, ch in enumerate(as_dir) if ch == '/']
 
     def dmatch(d):
-        return _fnmatch.fnmatchcase(as_dir, d if d.endswith('/') else d + '/')
-    if args.include_directories and not any(dmatch(d) for d in args.include_directories):
+        dd = d if d.endswith('/') else d + '/'
+        return any(_fnmatch.fnmatchcase(p, dd) for p in leading)
+    idirs, xdirs = ref_list(args, 'include_directories'), ref_list(args, 'exclude_directories')
+    if idirs and not any(dmatch(d) for d in idirs):
         broken.append('directories')
-    if args.exclude_directories and any(dmatch(d) for d in args.exclude_directories):
+    if xdirs and any(dmatch(d) for d in xdirs):
         broken.append('directories')
     # file-name suffix lists (a comma separated LIST of suffix patterns; directories are exempt)
     filename = path.rsplit('/', 1)[-1]
 
-    def as_list(v):
-        if v is None:
-            return []
-        if isinstance(v, str):
-            return [x.strip() for x in v.split(',')]
-        return list(v)
-
     def smatch(s):
         return _fnmatch.fnmatchcase(filename, '*' + s)
     if filename:
-        acc, rej = as_list(args.accept), as_list(args.reject)
+        acc, rej = ref_list(args, 'accept'), ref_list(args, 'reject')
         if acc and not any(smatch(s) for s in acc):
             broken.append('suffix')
         if rej and any(smatch(s) for s in rej):
@@ -473,7 +506,17 @@ def gen_record(rng, args, url):
 
 def pick_list(rng, pool, k=None):
     k = k or rng.choice([1, 1, 2, 3])
-    return ','.join(rng.choice(pool) for _ in range(k))
+    items = [rng.choice(pool) for _ in range(k)]
+    r = rng.random()
+    if r < 0.6:
+        return ','.join(items)
+    # the list as a user may write it: blanks around commas, empty entries, a trailing or leading comma
+    out = ''
+    for i, it in enumerate(items):
+        if i:
+            out += rng.choice([',', ', ', ' ,', ' , ', ',,', ', ,'])
+        out += it
+    return rng.choice(['', '', ' ', ',']) + out + rng.choice(['', '', ',', ' ', ', '])
 
 
 def gen_argv(rng, p=None):
@@ -555,6 +598,22 @@ def stream_subdir(ctx, cases, log):
         ctx.case(('subdir',) + tuple(c), tags=['subdir:%s:ts=%s:wc=%s' % (real, enc_bool(c[2]), enc_bool(c[3]))])
         if rep != real:
             ctx.disagree('subdir', {'stream': 'subdir', 'base': c[0], 'test': c[1], 'trailing_slash': c[2], 'wildcards': c[3]}, rep, real)
+
+
+def stream_commalist(ctx, strings):
+    """the converter behind -A/-R, -D/--exclude-domains, --hostnames/--exclude-hostnames, -I/-X"""
+    from wpull.application.options import AppArgumentParser
+    reps = ctx.model.ask(['filter commalist ' + enc(x) for x in strings])
+    for x, rep in zip(strings, reps):
+        got = AppArgumentParser.comma_list(x)
+        real = enc_lists(got)
+        ctx.case(('commalist', x), nontrivial=',' in x or x != x.strip(), tags=['commalist:n=%d' % min(len(got), 3)])
+        if real != rep:
+            ctx.disagree('commalist', {'stream': 'commalist', 'string': x}, rep, real)
+        want = [e.strip() for e in x.split(',') if e.strip()]
+        if list(got) != want:
+            ctx.fail('list-entry-not-clean', 'comma_list', {'stream': 'commalist', 'string': x},
+                     'comma_list(%r) = %r; the entries the user named are %r' % (x, got, want))
 
 
 def run_tests(ctx, cases, log):
@@ -749,6 +808,24 @@ def boundary_cases(rng):
                     out.append({'argv': ['http://a.example/', '-r', '-p'] + allow, 'hostnames': ['a.example'],
                                 'url': 'http://%s/img/y.png' % h,
                                 'record': dict(base, inline_level=inline, parent_url=parent), 'is_redirect': False})
+    # LISTs as users write them: a blank after the comma, a trailing comma; the URL is hit only by a later entry
+    for opt, val, url in (('--exclude-domains', 'c.test, b.example', 'http://b.example/blog/x.html'),
+                          ('--exclude-hostnames', 'c.test, b.example', 'http://b.example/blog/x.html'),
+                          ('-R', 'png, html', 'http://a.example/blog/x.html'), ('-R', 'png , html ,', 'http://a.example/blog/x.html'),
+                          ('-X', '/img, /blog', 'http://a.example/blog/x.html'), ('-X', '/img ,/blog', 'http://a.example/blog/sub/x.html'),
+                          ('-D', 'a.example,', 'http://b.example/blog/x.html'), ('-D', 'a.example, ', 'http://b.example/blog/x.html'),
+                          ('-A', 'png,', 'http://a.example/blog/x.html'), ('-A', ' png , ', 'http://a.example/blog/x.html'),
+                          ('-I', '/img,', 'http://a.example/blog/x.html'), ('--hostnames', 'a.example, ', 'http://b.example/blog/x.html'),
+                          ('-D', 'c.test, a.example', 'http://a.example/blog/x.html'), ('-A', 'png, html', 'http://a.example/blog/x.html'),
+                          ('-I', '/img, /blog', 'http://a.example/blog/x.html'), ('--hostnames', 'c.test, a.example', 'http://a.example/blog/x.html')):
+        out.append({'argv': ['http://a.example/', '-r', '-H', opt, val], 'hostnames': ['a.example'], 'url': url,
+                    'record': dict(base), 'is_redirect': False})
+    # directory lists cover the directory tree
+    for opt in ('-X', '-I'):
+        for d in ('/blog', '/blog/', '/blog*', '/b*/sub', '/', '/blog/sub'):
+            for pth in ('/blog', '/blog/', '/blog/x.html', '/blog/sub/x.html', '/blogger/x.html', '/x.html', '/a/blog/x.html', '/blog/sub/'):
+                out.append({'argv': ['http://a.example/', '-r', opt, d], 'hostnames': ['a.example'], 'url': 'http://a.example' + pth,
+                            'record': dict(base), 'is_redirect': False})
     # suffix lists given as comma separated LISTs
     for opt in ('-A', '-R'):
         for lst in ('html', 'html,png', 'tmp[!0-9]', 'bmp,jp[eg]', 'x?z', '[!a]', 'image.*.png'):
@@ -1390,13 +1467,31 @@ def gen_crawl_site(rng):
             if tgt in rpool:
                 tgt = rng.choice(pool)
             site[h][t] = {'kind': 'redirect', 'location': spell(h, tgt), 'code': rng.choice([301, 302, 303, 307, 308])}
+    # embedded HTML documents (iframes): page requisites that are HTML and carry plain links and further requisites
+    frames = {'a.test': ['/d/f1.html', '/fr/f2.html'], 'b.test': ['/fr.html']}
+    fpool = [cr_base(h) + t for h, ts in frames.items() for t in ts]
+    for h, ts in frames.items():
+        for t in ts:
+            links = [(spell(h, rng.choice(pool)), False) for _ in range(rng.randint(1, 3))]
+            links += [(spell(h, rng.choice(['http://a.test/e/p4.html', 'http://a.test/p5.html', 'http://b.test/y.html',
+                                            'http://www.a.test/d/w1.html', 'http://a.test/d/sub/p3.html'])), False)]
+            links += [(spell(h, rng.choice(ipool)), True) for _ in range(rng.choice([0, 1, 2]))]
+            if rng.random() < 0.3:
+                links.append((spell(h, rng.choice([f for f in fpool if f != cr_base(h) + t])), 'frame'))
+            site[h][t] = {'kind': 'html', 'links': links}
+    htmls = [(h, t) for h in ('a.test', 'b.test') for t, pg in site[h].items() if pg['kind'] == 'html' and (h, t) not in
+             [(fh, ft) for fh, fts in frames.items() for ft in fts]]
+    for h, t in htmls:
+        if rng.random() < 0.35:
+            site[h][t]['links'].append((spell(h, rng.choice(fpool)), 'frame'))
     # a two-hop chain a -> b -> a
     site['a.test']['/d/r1'] = {'kind': 'redirect', 'location': 'http://b.test/on', 'code': 302}
     site['b.test']['/on'] = {'kind': 'redirect', 'location': rng.choice(['http://a.test/d/p2.html', 'http://b.test/y.html', 'http://a.test/e/p4.html']), 'code': 301}
     start = rng.choice(['/d/', '/d/', '/'])
     if site['a.test'][start]['kind'] != 'html':
         site['a.test'][start] = {'kind': 'html', 'links': []}
-    site['a.test'][start]['links'] += [('/d/r1', False), (rng.choice(pool), False), ('http://b.test/y.html', False)]
+    site['a.test'][start]['links'] += [('/d/r1', False), (rng.choice(pool), False), ('http://b.test/y.html', False),
+                                       (rng.choice(fpool), 'frame')]
     for h in CR_HOSTKEYS:
         r = rng.random()
         if r < 0.5:
@@ -1464,7 +1559,10 @@ def _cr_server(site):
         for t, p in pages.items():
             k = p['kind']
             if k == 'html':
-                out[h][t] = Page(200, html([r for r, i in p['links'] if not i], [r for r, i in p['links'] if i]))
+                # link kind: False = <a href> (plain), True = <img src> (requisite), 'frame' = <iframe src> (embedded HTML document)
+                body = html([r for r, i in p['links'] if not i], [r for r, i in p['links'] if i is True]).decode()
+                frames = ''.join('<iframe src="%s"></iframe>' % r for r, i in p['links'] if i == 'frame')
+                out[h][t] = Page(200, body.replace('</body>', frames + '</body>').encode())
             elif k == 'leaf':
                 out[h][t] = Page(200, b'leaf data', ctype=p.get('ctype', 'text/plain'))
             elif k == 'robots':
@@ -1519,20 +1617,61 @@ def _crawl_work(case):
         ui = parse(u)
         t = ui.path + ('?' + ui.query if ui.query else '')
         return (site.get(ui.hostname_with_port) or {}).get(t, {'kind': 'missing'})
+    def final_page(u, n=6):
+        """the document an item ends at (after its redirects): that is where its links were scraped from"""
+        pg = page_of(u)
+        while pg['kind'] == 'redirect' and n:
+            u = parse(urljoin(u, pg['location'])).url
+            pg, n = page_of(u), n - 1
+        return u, pg
+
+    def link_kinds(parent, child):
+        base, pg = final_page(parent)
+        kinds = set()
+        for raw, kind in pg.get('links', []):
+            try:
+                if parse(urljoin(base, raw)).url == child:
+                    kinds.add(bool(kind))
+            except ValueError:
+                pass
+        return kinds
     added, out_rec, hops, fetched_items = {}, {}, {}, set()
-    fetches, candidates, skips, checkouts = [], [], [], []
+    true_rec = {parse(start).url: {'level': 0, 'inline_level': None}}
+    fetches, candidates, skips, checkouts, children = [], [], [], [], []
     with CallLog() as log:
-        def judge_one(url, rec, flag):
+        def judge_one(url, rec, flag, trec):
             rep, verdict, reason, failed = real_consult(demux, url, rec, flag, log)
             line = 'filter test %s %s %s %s %s' % (fenc, enc_info(parse(url)), enc_rec(rec), enc_bool(flag), log.tables())
-            return {'url': url, 'record': rec, 'flag': flag, 'real': rep, 'line': line,
-                    'broken': _justified(args, hostnames, url, rec, flag)}
+            # the reference judges under the record the PROPERTY implies (true link kind along the path), not the stored one
+            return {'url': url, 'record': rec, 'true_record': trec, 'flag': flag, 'real': rep, 'line': line,
+                    'broken': _justified(args, hostnames, url, trec, flag)}
+
+        def true_of(u, rec):
+            t = true_rec.get(u)
+            return dict(rec, level=t['level'], inline_level=t['inline_level']) if t else dict(rec)
+        first_batch = True
         for e in merged:
             op = e['op']
             if op == 'add_many':
                 for b in e['batch']:
                     if b['url'] in e['inserted'] and b['url'] not in added:
                         added[b['url']] = b
+                        par = b.get('parent')
+                        if first_batch or par is None:
+                            true_rec.setdefault(b['url'], {'level': 0, 'inline_level': None})
+                            continue
+                        kinds = link_kinds(par, b['url'])
+                        pt, pst = true_rec.get(par), out_rec.get(par)
+                        if len(kinds) != 1 or pt is None or pst is None:
+                            # linked both ways from one page / not a link of the generated page: take the stored kind
+                            true_rec[b['url']] = {'level': b.get('level'), 'inline_level': b.get('inline_level'), 'ambiguous': True}
+                            continue
+                        inline = kinds.pop()
+                        true_rec[b['url']] = {'level': pt['level'] + 1,
+                                              'inline_level': ((pt['inline_level'] or 0) + 1) if inline else None}
+                        children.append({'parent': par, 'parent_level': pst['level'], 'parent_inline': pst['inline_level'],
+                                         'inline': inline, 'child': b['url'], 'level': b.get('level'), 'inline_level': b.get('inline_level')})
+                first_batch = False
             elif op == 'check_out' and e.get('got'):
                 u = e['got']
                 b = added.get(u, {})
@@ -1540,7 +1679,7 @@ def _crawl_work(case):
                               'inline_level': e['inline_level'], 'try_count': e['try_count']}
                 hops[u] = 0
                 fetched_items.discard(u)
-                j = judge_one(u, out_rec[u], False)
+                j = judge_one(u, out_rec[u], False, true_of(u, out_rec[u]))
                 checkouts.append(j)
                 candidates.append(j)
             elif op == 'fetch':
@@ -1552,13 +1691,13 @@ def _crawl_work(case):
                 hop = hops[item]
                 hops[item] += 1
                 fetched_items.add(item)
-                j = judge_one(e['url'], rec, hop > 0 and strong)
+                j = judge_one(e['url'], rec, hop > 0 and strong, true_of(item, rec))
                 j.update(item=item, hop=hop)
                 fetches.append(j)
                 pg = page_of(e['url'])
                 if pg['kind'] == 'redirect':
                     tgt = parse(urljoin(e['url'], pg['location'])).url
-                    candidates.append(judge_one(tgt, rec, strong))
+                    candidates.append(judge_one(tgt, rec, strong, true_of(item, rec)))
             elif op == 'check_in':
                 if e['status'] == 'skipped' and e['url'] in out_rec and e['url'] not in fetched_items:
                     skips.append(e['url'])
@@ -1566,7 +1705,7 @@ def _crawl_work(case):
     return {'fetches': fetches, 'candidates': [{'url': c['url'], 'broken': c['broken']} for c in candidates],
             'checkouts': [{'url': c['url'], 'broken': c['broken'], 'record': c['record']} for c in checkouts], 'skips': skips,
             'requests': requests, 'robots': robots, 'strong': strong, 'hung': res.hung, 'exit_code': res.exit_code,
-            'error': res.error, 'argv': ['<start>'] + list(extra), 'nrows': len(res.rows)}
+            'error': res.error, 'argv': ['<start>'] + list(extra), 'nrows': len(res.rows), 'children': children}
 
 
 def run_crawl_cases(ctx, cases):
@@ -1578,10 +1717,28 @@ def run_crawl_cases(ctx, cases):
         with cf.ProcessPoolExecutor(max_workers=min(ctx.jobs, len(cases)), mp_context=mp.get_context('fork')) as ex:
             results = list(ex.map(_crawl_work, cases, chunksize=1))
     lines = [f['line'] for r in results for f in r['fetches'] if 'line' in f]
-    replies = iter(ctx.model.ask(lines))
-    for c, r in zip(cases, results):
+    lines += ['filter httpchild %s %d %s' % ('None' if ch['parent_inline'] is None else ch['parent_inline'], ch['parent_level'],
+                                            enc_bool(ch['inline'])) for r in results for ch in r['children']]
+    all_replies = ctx.model.ask(lines)
+    nfetch = len([1 for r in results for f in r['fetches'] if 'line' in f])
+    replies = iter(all_replies[:nfetch])
+    child_replies = iter(all_replies[nfetch:])
+    child_reply_of = {}
+    for ri, r in enumerate(results):
+        for ci, ch in enumerate(r['children']):
+            child_reply_of[(ri, ci)] = next(child_replies)
+    for ri, (c, r) in enumerate(zip(cases, results)):
         case = dict(c, stream='crawl')
         npages = len(r['fetches'])
+        # ---- the record stored for every scraped link = the model's child record for the link's kind
+        for ci, ch in enumerate(r['children']):
+            real = '%s %s' % (ch['level'], 'None' if ch['inline_level'] is None else ch['inline_level'])
+            if child_reply_of[(ri, ci)] != real:
+                ctx.disagree('httpchild', dict(case, link=ch), child_reply_of[(ri, ci)], real)
+        if any(ch['inline'] and ch['parent_inline'] for ch in r['children']):
+            ctx.tag('crawl:nested-requisite')
+        if any((not ch['inline']) and ch['parent_inline'] for ch in r['children']):
+            ctx.tag('crawl:plain-link-in-embedded-doc')
         offsite = len([f for f in r['fetches'] if parse(f['url']).hostname != CR_A])
         ctx.case(('crawl', json.dumps(c, sort_keys=True)), nontrivial=npages >= 2,
                  tags=['crawl:pages=%s' % ('0-1' if npages < 2 else '2-5' if npages < 6 else '6-15' if npages < 16 else '16+'),
@@ -1597,15 +1754,16 @@ def run_crawl_cases(ctx, cases):
                 ctx.fail('out-of-scope-request', 'crawl', case, 'request for %s by item %s that was never checked out' % (f['url'], f['item']))
                 continue
             rep = next(replies)
-            what = {'request': f['url'], 'item': f['item'], 'hop': f['hop'], 'record': f['record'], 'is_redirect': f['flag']}
+            what = {'request': f['url'], 'item': f['item'], 'hop': f['hop'], 'record': f['record'],
+                    'true_record': f['true_record'], 'is_redirect': f['flag']}
             if rep != f['real']:
                 ctx.disagree('crawl', dict(case, **what), rep, f['real'])
             elif rep.split(' ')[2] != 'T':
                 ctx.disagree('crawl', dict(case, **what), rep, 'the crawl requested %s' % f['url'])
             if f['broken']:
                 ctx.fail('out-of-scope-request', 'crawl', dict(case, **what),
-                         'the crawl requested %s (hop %d of item %s, record %s) which breaks %s'
-                         % (f['url'], f['hop'], f['item'], f['record'], f['broken']))
+                         'the crawl requested %s (hop %d of item %s; stored record %s; record by link kind along the path %s) which breaks %s'
+                         % (f['url'], f['hop'], f['item'], f['record'], f['true_record'], f['broken']))
         # ---- every request line of the server log is one of those page requests, or an exempt robots.txt
         pool = {}
         for f in r['fetches']:
@@ -1733,6 +1891,8 @@ def replay(ctx, case, kind=None, where=None):
             stream_similar(ctx, [(case['a'], case['b'])])
         elif s == 'subdir':
             stream_subdir(ctx, [(case['base'], case['test'], case['trailing_slash'], case['wildcards'])], log)
+        elif s == 'commalist':
+            stream_commalist(ctx, [case['string']])
         elif s == 'web':
             run_web_cases(ctx, [case], log)
         elif s == 'ftp':
@@ -1776,6 +1936,13 @@ def run(ctx):
                 return ''.join(rng.choice(['/', '/', 'a', 'b', '*', 'ab', '?']) for _ in range(rng.randrange(0, 7)))
             sub.append((rp(), rp(), rng.random() < 0.5, rng.random() < 0.5))
         stream_subdir(ctx, sub, log)
+        # option value -> list
+        strs = ['', ' ', ',', 'a', ' a', 'a ', 'a,b', 'a, b', 'a ,b', ' a , b ', 'a,,b', 'a,', ',a', 'a, ', 'a,\tb', 'a,\u00a0b', 'a,\u2003b\u2003',
+                '*.exe, *.zip', 'tracker.test, ads.test', 'a b, c d', ', ,', 'a,\x1fb', 'a,\x0bb']
+        for _ in range(ctx.scale(300, 5000)):
+            strs.append(''.join(rng.choice(['a', 'b', '.x', ',', ',', ' ', ' ', '\t', '*', '\u00a0', '\x85', '/'])
+                                for _ in range(rng.randrange(0, 10))))
+        stream_commalist(ctx, strs)
         # option -> filters -> verdict
         run_tests(ctx, boundary_cases(rng), log)
         n = ctx.scale(20000, 400000)
@@ -1793,7 +1960,18 @@ def run(ctx):
         run_ftp_crawls(ctx, fixed_ftp_crawl_cases() + [gen_ftp_crawl_case(srng) for _ in range(ctx.scale(40, 600))], log)
     # part (b) end to end: whole crawls of the real application
     crng = ctx.subrng('crawl')
-    run_crawl_cases(ctx, [gen_crawl_case(crng) for _ in range(ctx.scale(40, 1000))])
+    ccases = [gen_crawl_case(crng) for _ in range(ctx.scale(34, 1000))]
+    # the rules that are relaxed for page requisites, on sites whose embedded documents carry plain links
+    for extra in (['-r', '-p', '--no-parent'], ['-r', '-p', '--span-hosts-allow', 'page-requisites'], ['-r', '-p', '-l', '1']):
+        for _ in range(ctx.scale(2, 10)):
+            cc_ = gen_crawl_case(crng)
+            cc_['extra'] = ['--no-check-certificate', '--no-robots'] + extra
+            cc_['start'] = 'http://a.test/d/'
+            if cc_['site']['a.test']['/d/']['kind'] != 'html':
+                cc_['site']['a.test']['/d/'] = {'kind': 'html', 'links': []}
+            cc_['site']['a.test']['/d/']['links'] += [('/d/f1.html', 'frame'), ('http://b.test/fr.html', 'frame')]
+            ccases.append(cc_)
+    run_crawl_cases(ctx, ccases)
 
 
 def search(ctx):
